@@ -32,6 +32,7 @@ type Store struct {
 	Hook func(kind string, writes []string)
 
 	// injected faults (armed at a chosen moment, e.g. right before Shutdown is requested)
+	failGetClient error
 	failClose  error
 	failWrite  error
 	failWriteP func(key string) bool
@@ -41,6 +42,9 @@ type Store struct {
 
 // FailClose makes every later Close return err (the client still counts as closed afterwards).
 func (s *Store) FailClose(err error) { s.mu.Lock(); s.failClose = err; s.mu.Unlock() }
+
+// FailGetClient makes the storage extension refuse to hand out a client (the queue's Start fails).
+func (s *Store) FailGetClient(err error) { s.mu.Lock(); s.failGetClient = err; s.mu.Unlock() }
 
 // FailWrites makes every later Set/Delete/Batch that writes a key for which match returns true fail with
 // err and change nothing (match == nil: every write).
@@ -268,6 +272,12 @@ type storageExt struct {
 }
 
 func (e *storageExt) GetClient(context.Context, component.Kind, component.ID, string) (storage.Client, error) {
+	e.s.mu.Lock()
+	err := e.s.failGetClient
+	e.s.mu.Unlock()
+	if err != nil {
+		return nil, err
+	}
 	return e.s, nil
 }
 
